@@ -1021,4 +1021,71 @@ theorem readAll_items (layer : Nat) (c : Bool) : ∀ (mp : List (Name × Entry))
         · obtain ⟨e', he', h1, h2, h3⟩ := ih out' hr item hi
           exact ⟨e', by simp [he'], h1, h2, h3⟩
 
+/-! ## the constructor keeps every key it is given -/
+
+theorem mem_keys_dictSet (d : Dict) (k : Name) (v : Nat) (x : Name) :
+    x ∈ keys (dictSet d k v) ↔ x ∈ keys d ∨ x = k := by
+  by_cases hk : k ∈ keys d
+  · rw [keys_dictSet_old v hk]
+    constructor
+    · exact Or.inl
+    · rintro (h | h)
+      · exact h
+      · exact h ▸ hk
+  · rw [dictSet_new v hk]
+    simp
+
+theorem mem_keys_foldl_update (g : Dict) : ∀ (d : Dict) (x : Name),
+    x ∈ keys (g.foldl (fun acc e => dictSet acc e.1 e.2) d) ↔ x ∈ keys g ∨ x ∈ keys d := by
+  induction g with
+  | nil => intro d x; simp
+  | cons e r ih =>
+    intro d x
+    simp only [List.foldl_cons, ih, mem_keys_dictSet, keys_cons, List.mem_cons]
+    constructor
+    · rintro (h | h | h)
+      · exact Or.inl (Or.inr h)
+      · exact Or.inr h
+      · exact Or.inl (Or.inl h)
+    · rintro ((h | h) | h)
+      · exact Or.inr (Or.inr h)
+      · exact Or.inl h
+      · exact Or.inr (Or.inl h)
+
+/-- the keys of the calibration dict of a new laser: the elements and every key of the given dict -/
+theorem mem_keys_initCal (el : List Name) (given : Option Dict) (x : Name) :
+    x ∈ keys (initCal el given) ↔ x ∈ el ∨ ∃ g, given = some g ∧ x ∈ keys g := by
+  have hd0 : ∀ (l : List Name) (d : Dict), x ∈ keys (l.foldl (fun acc n => dictSet acc n 0) d) ↔ x ∈ l ∨ x ∈ keys d := by
+    intro l
+    induction l with
+    | nil => intro d; simp
+    | cons a r ih =>
+      intro d
+      simp only [List.foldl_cons, ih, mem_keys_dictSet, List.mem_cons]
+      constructor
+      · rintro (h | h | h)
+        · exact Or.inl (Or.inr h)
+        · exact Or.inr h
+        · exact Or.inl (Or.inl h)
+      · rintro ((h | h) | h)
+        · exact Or.inr (Or.inr h)
+        · exact Or.inl h
+        · exact Or.inr (Or.inl h)
+  unfold initCal
+  cases given with
+  | none => simp [hd0]
+  | some g =>
+    simp only [mem_keys_foldl_update, hd0, keys_nil, List.not_mem_nil, or_false, Option.some.injEq, exists_eq_left']
+    exact Or.comm
+
+theorem mkState_inv_iff {srr : Bool} {ls : List Layer} {given : Option Dict} (cfg : Nat) (hl : LayersOK ls)
+    (hnd : ∀ g, given = some g → (keys g).Nodup) : Inv (mkState srr ls given cfg) ↔ GivenOK ls given := by
+  constructor
+  · intro h g hg
+    refine ⟨hnd g hg, fun k hk => ?_⟩
+    have : k ∈ keys (mkState srr ls given cfg).cal :=
+      (mem_keys_initCal (elementsOf ls) given k).2 (Or.inr ⟨g, hg, hk⟩)
+    exact (h.cal_iff k).1 this
+  · exact mkState_inv cfg hl
+
 end Pew.LaserEdit
